@@ -535,7 +535,37 @@ func TestPruneProbe(t *testing.T) {
 		key := "prune-crash:floor-reseed-below-deleted-history"
 		out.Diverge(vh.Divergence{Key: key, What: "[" + key + "] directed replay: " + what, Input: vh.J{"probe": "FixPruneAtomicFloor"}})
 	}
-	out.Done(1, 1)
+	// the min-age sample after a reorg: chain 0..11 all old (the seed sample is 11 = "no young
+	// block"), blocks 11 and 10 are replaced by young ones, two more young blocks, L1 head 12:
+	// the prune keeps min(sample 11, 12-1) = 11 and deletes block 10', which is young
+	{
+		w, err := newWorld(consts{MaxH: 13, InitH: 11, MaxL1: 15, Retained: 1, PruneBatch: 1, L2PerPrune: 1, MinAge: true}, vh.Seed(), false, "memory")
+		if err != nil {
+			panic(err)
+		}
+		defer w.close()
+		must := func(err error) {
+			if err != nil {
+				panic(err)
+			}
+		}
+		must(w.revert())
+		must(w.revert())
+		for i := 0; i < 4; i++ {
+			must(w.newBlock(true))
+		}
+		must(w.setL1(12))
+		res := w.deliver("l1", 12, faultkv.Off, 0, false)
+		o, _ := pruner.OldestRetainedBlock(w.raw)
+		pruned := int(o) > 10 && w.young[10]
+		out.Stats["FixSampleOnReorg"] = !pruned
+		if pruned {
+			key := "min-age:young-block-pruned-after-reorg-below-sample"
+			out.Diverge(vh.Divergence{Key: key, Input: vh.J{"probe": "FixSampleOnReorg"},
+				What: fmt.Sprintf("[%s] directed replay: chain 0..11 older than the minimum age (sample = 11), revert 11 and 10, store 10', 11', 12, 13 with young timestamps, L1 head 12, Retained 1: the prune (%s) keeps min(sample, 11) = 11 and deletes block 10' although it is younger than the minimum age (oldest retained now %d)", key, res.String(), o)})
+		}
+	}
+	out.Done(2, 2)
 }
 
 var _ = memory.New
